@@ -39,4 +39,9 @@ def simple(ctx):
 
 PROPS = {
     "C01": {"run": simple, "level": "exploration"},
+    "C18": {"run": simple, "level": "exploration"},
+    "C19": {"run": simple, "level": "exploration"},
+    "C20": {"run": simple, "level": "exploration"},
+    "C21": {"run": simple, "level": "exploration"},
+    "C22": {"run": simple, "level": "exploration"},
 }
